@@ -119,3 +119,46 @@ def own_state_getters(prog, rep, rule="GET-1"):
                       "every object that merely inherits it" % (cls.name, py, far), gt.where,
                       witness="a Document with a repository and Sections without one: every Section is saved with its own <repository>")
     rep.floor(rule, n, 20, "format attribute getters")
+
+
+# attributes the reader / writer / converter objects (re)bind outside their constructor, confirmed on the reviewed tree: everything else they
+# know is fixed at construction, so two calls on one object do not influence each other
+STATE_AFTER_INIT = {
+    "XMLWriter": (),
+    "XMLReader": (),
+    "DictWriter": ("doc",),
+    "DictReader": ("parsed_doc",),
+    "ODMLWriter": ("parsed_doc",),
+    "ODMLReader": ("doc", "parsed_doc", "warnings"),
+    "VersionConverter": ("conversion_log",),
+    "RDFWriter": ("hub_root",),
+    "RDFReader": ("graph",),
+}
+
+
+def stateless_tools_rule(prog, rep, rule, classes):
+    """(shared) the tool objects keep no state between two calls beyond what the reviewed table lists"""
+    import ast as _ast
+    from ..model import unparse as _u
+    from ..astutil import where as _where
+    rep.rule(rule, "the methods of %s store into attributes of self only in __init__, except for %s: a result kept on the object (a rendered text, a "
+                   "parsed source tree) is served again after the document or the file changed, and a list that is re-bound (self.warnings = []) is "
+                   "no longer the list other objects were handed" % (", ".join(classes), dict((c, STATE_AFTER_INIT[c]) for c in classes if STATE_AFTER_INIT[c])))
+    n = 0
+    for cname in classes:
+        cls = prog.cls(cname)
+        for m in cls.methods.values():
+            if m.name == "__init__" or not m.params or m.kind in ("static", "classmethod"):
+                continue
+            me = m.params[0]
+            for st in _ast.walk(m.node):
+                tg = st.targets if isinstance(st, _ast.Assign) else [st.target] if isinstance(st, (_ast.AugAssign, _ast.AnnAssign)) else []
+                for t in tg:
+                    for y in (t.elts if isinstance(t, (_ast.Tuple, _ast.List)) else [t]):
+                        if isinstance(y, _ast.Attribute) and isinstance(y.value, _ast.Name) and y.value.id == me:
+                            n += 1
+                            rep.check(y.attr in STATE_AFTER_INIT[cname], rule, "%s.%s: self.%s" % (cname, m.name, y.attr), "reviewed state",
+                                      "%s.%s stores self.%s: the object carries that over to its next call (or replaces an object that was shared "
+                                      "with its user)" % (cname, m.name, y.attr), _where(m, st),
+                                      witness="use one %s for two calls with a change in between: the second result is that of the first" % cname)
+    rep.ok(rule, "%s keep no further state between calls" % "/".join(classes), "%d stores outside __init__, all reviewed" % n, "")
